@@ -58,7 +58,7 @@ type C18Step struct {
 type C18Case struct {
 	Target string    `json:"target"` // stack | cond
 	Kind   string    `json:"kind"`
-	Init   int       `json:"init"` // initial option bits (set through the setters, read-only last)
+	Init   int       `json:"init"`            // initial option bits (set through the setters, read-only last)
 	Final  bool      `json:"final,omitempty"` // observe only after the last step (enumerated sequences: their prefixes are enumerated too)
 	Steps  []C18Step `json:"steps"`
 }
@@ -301,6 +301,10 @@ func runC18Stack(c C18Case) (st Stats, err error) {
 				if _, pp := callMethod(s, methodRef{Name: step.Name}, args); pp != "" {
 					panic(pp)
 				}
+			case "logger":
+				// choosing where log lines go has no say in anything else (the log levels least of all)
+				s.SetLogger(c18Logger(step.Mode))
+				st.Class("set-logger")
 			case "id":
 				if !ro {
 					m.id = step.S
@@ -488,6 +492,21 @@ func runC18Stack(c C18Case) (st Stats, err error) {
 	return st, nil
 }
 
+// c18Logger: the accepted forms of a logger argument that write nowhere visible.
+func c18Logger(mode int) any {
+	switch mode % 5 {
+	case 0:
+		return liveLogger
+	case 1:
+		return "off"
+	case 2:
+		return 0
+	case 3:
+		return discardLogger
+	}
+	return nil
+}
+
 func runC18Cond(c C18Case) (st Stats, err error) {
 	var cd stackage.Condition
 	var userAux stackage.Auxiliary
@@ -597,6 +616,9 @@ func runC18Cond(c C18Case) (st Stats, err error) {
 				if _, pp := callMethod(cd, methodRef{Name: step.Name}, args); pp != "" {
 					panic(pp)
 				}
+			case "logger":
+				cd.SetLogger(c18Logger(step.Mode))
+				st.Class("set-logger")
 			case "id":
 				if !ro {
 					id = step.S
@@ -841,11 +863,11 @@ func genLogArgs(t *rapid.T) []string {
 func genC18(t *rapid.T, tier Tier) C18Case {
 	c := C18Case{Target: "stack", Kind: rapid.SampledFrom(stackKinds).Draw(t, "kind"), Init: rapid.SampledFrom(initStates()).Draw(t, "init")}
 	setters := triStateSetters(stackMethods)
-	ops := []string{"tri", "tri", "tri", "tri", "id", "cat", "delim", "symbol", "encap", "encap", "aux", "loglevel", "loglevel", "unloglevel", "fifo", "push", "pop"}
+	ops := []string{"tri", "tri", "tri", "tri", "id", "cat", "delim", "symbol", "encap", "encap", "aux", "loglevel", "loglevel", "unloglevel", "logger", "fifo", "push", "pop"}
 	if rapid.IntRange(0, 4).Draw(t, "cond") == 0 {
 		c.Target = "cond"
 		setters = triStateSetters(condMethods)
-		ops = []string{"tri", "tri", "tri", "id", "cat", "encap", "aux", "loglevel", "unloglevel"}
+		ops = []string{"tri", "tri", "tri", "id", "cat", "encap", "aux", "loglevel", "unloglevel", "logger"}
 	}
 	if rapid.IntRange(0, 2).Draw(t, "clearro") > 0 {
 		c.Init &^= bRO
@@ -888,6 +910,8 @@ func genC18(t *rapid.T, tier Tier) C18Case {
 				s.SS = append([]string{}, rapid.SampledFrom([][]string{{"(", ")"}, {"«", "»"}, {"[", "]"}, {"<", ">"}, {`"`, "'"}, {"(", "]"}}).Draw(t, "e2")...)
 				s.Mode = 1
 			}
+		case "logger":
+			s.Mode = rapid.IntRange(0, 4).Draw(t, "loggerform")
 		case "aux":
 			s.Mode = rapid.IntRange(0, 3).Draw(t, "auxform")
 		case "loglevel", "unloglevel":
@@ -908,14 +932,14 @@ func init() {
 		ID: "C18",
 		Rule: "exhaustive: from each of the 256 initial option states (8 options set through their setters) on a LIST and an AND stack with fixed probe content: every {set,clear,toggle} of every reflected tri-state setter (deprecated aliases included), every length-2 sequence over the 8 canonical setters x 3 modes (quick: on the AND stack from every 8th state only), " +
 			"and every length-3 sequence from the zero/single-bit/all states (thorough: from all 256); Conditions: all sequences up to length 2 (thorough 3) over their reflected tri-state setters from 16 initial states. " +
-			"rapid: sequences of 5..40 steps mixing those with SetID, SetCategory, SetDelimiter (string/rune/nil), SetSymbol (strings/runes/none), SetEncap (string, 1- and 2-element slices, clashes, no argument), SetAuxiliary (populated map/empty map/nil/none, on Stacks and Conditions; identity and write-through), SetLogLevel/UnsetLogLevel (names in any case, constants, raw ints, none/all), SetFIFO(true/false), Push/Pop. " +
+			"rapid: sequences of 5..40 steps mixing those with SetID, SetCategory, SetDelimiter (string/rune/nil), SetSymbol (strings/runes/none), SetEncap (string, 1- and 2-element slices, clashes, no argument), SetAuxiliary (populated map/empty map/nil/none, on Stacks and Conditions; identity and write-through), SetLogger (logger value, off, 0, nil), SetLogLevel/UnsetLogLevel (names in any case, constants, raw ints, none/all), SetFIFO(true/false), Push/Pop. " +
 			"Oracle after every step: raw option bits (VerifDump) == record model gated by read-only; getters IsParen/IsPadded/IsReadOnly/CanNest/IsEncap/IsFIFO; ID/Category/Delimiter/LogLevels/Auxiliary identity; content unchanged; String() == canonical rendering under the model's options; Index(-1)/Index(Len+5) behave per the index bits. " +
 			"non-trivial = sequence touches >=2 different options with >=1 toggle, or uses a string-valued setter on the kind that must ignore it; distinct = distinct case JSON",
-		Gen:      genC18,
-		Run:      runC18,
-		Enum:     enumC18,
-		EnumNote: "256 initial option states x {all reflected tri-state setters x 3 modes; all length-2 sequences over 8 canonical setters x 3 modes}; length-3 from 10 (quick) / 256 (thorough) states; Conditions up to length 2/3",
-		Floors:   map[string]float64{"cond-target": 0.1, "encap-clash-refused": 0.05, "delimiter-on-non-LIST": 0.1, "symbol-on-LIST": 0.03, "fifo-off-attempt": 0.02},
+		Gen:         genC18,
+		Run:         runC18,
+		Enum:        enumC18,
+		EnumNote:    "256 initial option states x {all reflected tri-state setters x 3 modes; all length-2 sequences over 8 canonical setters x 3 modes}; length-3 from 10 (quick) / 256 (thorough) states; Conditions up to length 2/3",
+		Floors:      map[string]float64{"cond-target": 0.1, "encap-clash-refused": 0.05, "delimiter-on-non-LIST": 0.1, "symbol-on-LIST": 0.03, "fifo-off-attempt": 0.02},
 		Assumptions: []string{"UnsetLogLevel(all) may leave the set unchanged or clear it (public docs silent); unknown log-level names are not generated", "IDs _random/_addr are not generated"},
 	})
 }
